@@ -1,6 +1,7 @@
 package rules
 
 import (
+	"sort"
 	"fmt"
 	"go/token"
 	"go/types"
@@ -442,136 +443,112 @@ func checkSendDecision(c *engine.Ctx, rule string) {
 	}
 	c.Analysed(engine.FuncName(decide))
 	key := engine.FuncName(decide) + "|send-decision"
-	rets := engine.Returns(decide)
-	if len(rets) != 1 {
-		c.Undecided(rule, key, decide.Pos(), "send decision function has several returns")
-		return
-	}
-	v := engine.LocalValue(rets[0].Results[0])
-	ph, ok := v.(*ssa.Phi)
-	if !ok {
-		c.Undecided(rule, key, rets[0].Pos(), "the send decision is not a short-circuit conjunction (unrecognised shape: "+v.String()+")")
-		return
-	}
 	var hasBlock ssa.Value
 	for _, p := range decide.Params {
 		if b, isB := p.Type().Underlying().(*types.Basic); isB && b.Kind() == types.Bool {
 			hasBlock = p
 		}
 	}
-	nonConst := 0
-	var last ssa.Value
-	var lastPred *ssa.BasicBlock
-	for i, e := range ph.Edges {
-		if b, isB := engine.ConstBool(e); isB {
-			if b {
-				c.Violate(rule, key, rets[0].Pos(), "the send decision can be true without evaluating all three conditions")
-				return
-			}
+	// the reference-count read and the recording of this traversal
+	var refCall, recCall *ssa.Call
+	for _, ci := range engine.Calls(decide) {
+		if ci.Static == nil || ci.Value() == nil {
 			continue
 		}
-		nonConst++
-		last, lastPred = e, ph.Block().Preds[i]
+		switch ci.Static.Name() {
+		case "BlockRefCount":
+			refCall = ci.Value()
+		case "RecordLinkTraversal":
+			recCall = ci.Value()
+		}
 	}
-	if nonConst != 1 {
-		c.Undecided(rule, key, rets[0].Pos(), "the send decision is not a three-way short-circuit conjunction")
+	incs := engine.MapUpdatesOfField([]*ssa.Function{decide}, countF)
+	if hasBlock == nil || refCall == nil || recCall == nil || len(incs) == 0 {
+		c.Undecided(rule, key, decide.Pos(), "cannot find the block-present flag, the reference-count read, the recording call and the per-request counter update in the send decision")
 		return
 	}
-	// classify conjuncts: the final value plus the conditions dominating its block
-	type conj struct{ present, skip, unique bool }
-	var got conj
-	var refCall, skipCmp ssa.Instruction
-	incViaLocal := false
-	classify := func(v ssa.Value, pol bool) {
-		v = engine.Strip(v)
-		if hasBlock != nil && v == hasBlock && pol {
-			got.present = true
-			return
-		}
-		b, ok := v.(*ssa.BinOp)
-		if !ok {
-			return
-		}
-		// skip < count
-		l, r := engine.Strip(b.X), engine.Strip(b.Y)
-		lkl, lok := l.(*ssa.Lookup)
-		lkr, rok := r.(*ssa.Lookup)
-		// the post-increment count held in a local: the very value written back to the counter (count[req]+1)
-		isNewCount := func(v ssa.Value) ssa.Instruction {
-			for _, mu := range engine.MapUpdatesOfField([]*ssa.Function{decide}, countF) {
-				if engine.Strip(mu.Value) != v {
-					continue
-				}
-				if add, ok := v.(*ssa.BinOp); ok && add.Op == token.ADD {
-					if lk, ok := engine.Strip(add.X).(*ssa.Lookup); ok && isLoadOfField(lk.X, countF) {
-						if k, ok := engine.ConstInt(add.Y); ok && k == 1 {
-							return mu
+	// finite-domain evaluation: block present x skip count x blocks counted so far x reference count; the decision
+	// returned must be  present AND skip < counted+1 AND refcount == 0  on every path, however it is put together
+	bad := ""
+	n := 0
+	for _, present := range []bool{true, false} {
+		for _, skip := range []int64{0, 1, 2} {
+			for _, counted := range []int64{0, 1} {
+				for _, refs := range []int64{0, 1} {
+					n++
+					want := present && skip < counted+1 && refs == 0
+					got := map[string]bool{}
+					ev := &engine.Evaluator{MaxVisits: 2}
+					ev.Input = func(v ssa.Value) (engine.EVal, bool) {
+						if v == hasBlock {
+							return engine.EVal{K: engine.EBool, B: present}, true
+						}
+						if v == ssa.Value(refCall) {
+							return engine.EVal{K: engine.EInt, I: refs}, true
+						}
+						lk, ok := v.(*ssa.Lookup)
+						if ex, isEx := v.(*ssa.Extract); isEx && ex.Index == 0 {
+							lk, ok = ex.Tuple.(*ssa.Lookup)
+						}
+						if ok {
+							if isLoadOfField(lk.X, skipF) {
+								return engine.EVal{K: engine.EInt, I: skip}, true
+							}
+							if isLoadOfField(lk.X, countF) {
+								for _, mu := range incs {
+									if engine.Before(mu, lk) {
+										return engine.EVal{K: engine.EInt, I: counted + 1}, true // read back after the increment
+									}
+								}
+								return engine.EVal{K: engine.EInt, I: counted}, true
+							}
+						}
+						return engine.EVal{}, false
+					}
+					ev.Observe = func(in ssa.Instruction, get func(ssa.Value) engine.EVal) {
+						if r, ok := in.(*ssa.Return); ok && len(r.Results) > 0 {
+							v := get(r.Results[0])
+							if v.K == engine.EBool {
+								got[fmt.Sprint(v.B)] = true
+							} else {
+								got["unknown"] = true
+							}
+						}
+					}
+					ev.Run(decide)
+					if ev.Aborted || len(got) != 1 || !got[fmt.Sprint(want)] {
+						var gs []string
+						for g := range got {
+							gs = append(gs, g)
+						}
+						sort.Strings(gs)
+						if bad == "" {
+							bad = fmt.Sprintf("block present=%v, skip count=%d, blocks counted before this one=%d, reference count=%d: the decision is %v, expected %v", present, skip, counted, refs, gs, want)
 						}
 					}
 				}
 			}
-			return nil
 		}
-		if lok && !rok && isLoadOfField(lkl.X, skipF) && ((b.Op == token.LSS && pol) || (b.Op == token.GEQ && !pol)) {
-			if mu := isNewCount(r); mu != nil {
-				got.skip = true
-				incViaLocal = true
-				return
-			}
-		}
-		if rok && !lok && isLoadOfField(lkr.X, skipF) && ((b.Op == token.GTR && pol) || (b.Op == token.LEQ && !pol)) {
-			if mu := isNewCount(l); mu != nil {
-				got.skip = true
-				incViaLocal = true
-				return
-			}
-		}
-		if lok && rok {
-			if ((b.Op == token.LSS && pol) || (b.Op == token.GEQ && !pol)) && isLoadOfField(lkl.X, skipF) && isLoadOfField(lkr.X, countF) {
-				got.skip = true
-				skipCmp = lkr
-			}
-			if ((b.Op == token.GTR && pol) || (b.Op == token.LEQ && !pol)) && isLoadOfField(lkl.X, countF) && isLoadOfField(lkr.X, skipF) {
-				got.skip = true
-				skipCmp = lkl
-			}
-			return
-		}
-		// refcount == 0
-		if call, isC := l.(*ssa.Call); isC {
-			if sc := call.Call.StaticCallee(); sc != nil && sc.Name() == "BlockRefCount" {
-				if k, isK := engine.ConstInt(b.Y); isK && k == 0 && ((b.Op == token.EQL && pol) || (b.Op == token.NEQ && !pol) || (b.Op == token.LEQ && pol)) {
-					got.unique = true
-					refCall = call
+	}
+	if bad != "" {
+		c.Violate(rule, key, decide.Pos(), "the send decision is not  present AND past the skip count (counting this block) AND not already in use: "+bad+" — blocks are sent that should not be, or withheld when they should be sent")
+		return
+	}
+	// the counter written back is the old value plus one, and the reference count is read before this traversal is recorded
+	incOK := false
+	for _, mu := range incs {
+		if b, isB := engine.Strip(mu.Value).(*ssa.BinOp); isB && b.Op == token.ADD {
+			if k, isK := engine.ConstInt(b.Y); isK && k == 1 {
+				if lk, isL := engine.Strip(b.X).(*ssa.Lookup); isL && isLoadOfField(lk.X, countF) {
+					incOK = true
 				}
 			}
 		}
 	}
-	classify(last, true)
-	for _, cd := range engine.BlockConds(lastPred) {
-		classify(cd.V, cd.Pol)
-	}
-	// a phi'd conjunct (e.g. notSkipped computed earlier as a value) is followed one level
-	if !got.present || !got.skip || !got.unique {
-		c.Violate(rule, key, rets[0].Pos(), fmt.Sprintf("the send decision is not the conjunction of all three conditions (block present: %v, past the skip count: %v, not already in use: %v): blocks are sent that should not be, or withheld when they should be sent", got.present, got.skip, got.unique))
-		return
-	}
-	// ordering: counter incremented before the skip comparison; refcount read before the traversal is recorded
-	incBefore := incViaLocal
-	for _, mu := range engine.MapUpdatesOfField([]*ssa.Function{decide}, countF) {
-		if b, isB := mu.Value.(*ssa.BinOp); isB && b.Op == token.ADD && skipCmp != nil && engine.Before(mu, skipCmp) {
-			incBefore = true
-		}
-	}
-	readBefore := false
-	for _, ci := range engine.Calls(decide) {
-		if ci.Static != nil && ci.Static.Name() == "RecordLinkTraversal" && refCall != nil && engine.Before(refCall, ci.Instr) {
-			readBefore = true
-		}
-	}
-	c.Decide(rule, key, rets[0].Pos(), incBefore && readBefore,
-		"sendBlock = hasBlock && skip < count (after count++) && BlockRefCount(link) == 0 (before this traversal is recorded)",
-		fmt.Sprintf("ordering broken (per-request counter incremented before the skip comparison: %v; reference count read before recording this traversal: %v)", incBefore, readBefore))
+	readBefore := engine.Before(refCall, recCall)
+	c.Decide(rule, key, decide.Pos(), incOK && readBefore,
+		fmt.Sprintf("over %d value combinations: sendBlock = hasBlock && skip < count (after count++) && BlockRefCount(link) == 0 (before this traversal is recorded)", n),
+		fmt.Sprintf("ordering broken (per-request counter incremented by one: %v; reference count read before recording this traversal: %v)", incOK, readBefore))
 }
 
 // checkClearBeforeTerminate (C19.R7, C03.R8): wherever the response manager retires a response directly (no final
